@@ -133,7 +133,9 @@ impl C07 {
                 let mut v = vec![];
                 v.push(("betweenness_centrality", betweenness_centrality(g, weighted, true).map(|m| canon_map(&m)).unwrap_or_else(|e| format!("Err {:?}", e.kind))));
                 v.push(("closeness_centrality", closeness_centrality(g, weighted, true).map(|m| canon_map(&m)).unwrap_or_else(|e| format!("Err {:?}", e.kind))));
-                v.push(("all_pairs_distances_only", dijkstra::all_pairs(g, weighted, None, None, false, false).map(|m| canon_pairs(&m)).unwrap_or_else(|e| format!("Err {:?}", e.kind))));
+                if n <= 1200 {
+                    v.push(("all_pairs_distances_only", dijkstra::all_pairs(g, weighted, None, None, false, false).map(|m| canon_pairs(&m)).unwrap_or_else(|e| format!("Err {:?}", e.kind))));
+                }
                 v
             })
         };
@@ -157,8 +159,8 @@ impl C07 {
                 }
             }
         }
-        out.class("large_graph_61_to_1200_nodes");
-        out.class(format!("large_graph_n_above_{}", if n > 512 { 512 } else if n > 256 { 256 } else if n > 128 { 128 } else { 60 }));
+        out.class("large_graph_61_to_3000_nodes");
+        out.class(format!("large_graph_n_above_{}", if n > 2048 { 2048 } else if n > 1024 { 1024 } else if n > 512 { 512 } else if n > 256 { 256 } else if n > 128 { 128 } else { 60 }));
         out.nontrivial = true;
         out
     }
@@ -170,7 +172,7 @@ impl Prop for C07 {
         "C07"
     }
     fn rule(&self) -> String {
-        "graphs of all 8 kinds with 21..=60 nodes (plus, one case in 13, a procedurally generated sparse graph with a log-uniform size in 61..=1200 on which the centralities and distance-only all_pairs run in pools of 2, 5 and 16 threads) (random, tie-rich shapes, unweighted / tie-rich / non-dyadic weights so that the order of floating-point additions would matter). For every graph the five functions (all_pairs with and without paths, multi_source on a generated subset, get_all_shortest_paths_involving, all_pairs / multi_source with target, cutoff and first_only, betweenness raw/normalized, closeness with/without WF) run inside rayon pools of every size 1..=16 entered with install (size 1 takes the serial path and is the reference), each size repeated 2 (quick) / 6 (thorough) times, half of the repetitions with perturbing load (busy tasks spawned into the same pool; the harness itself runs 16 cases at a time on shared pools, which shifts work stealing further); plus 6 scoped threads calling the functions on one &Graph at the same time. Oracle: differential — identical key sets, f64::to_bits equality of every distance and centrality, identical path lists including their order. Non-trivial = n > 20 and the serial result contains a non-integer value or a pair with >= 2 paths; distinct = distinct serialised case.".into()
+        "graphs of all 8 kinds with 21..=60 nodes (plus, one case in 13, a procedurally generated sparse graph with a log-uniform size in 61..=3000 on which the centralities (and, up to 1200 nodes, distance-only all_pairs) run in pools of 2, 5 and 16 threads) (random, tie-rich shapes, unweighted / tie-rich / non-dyadic weights so that the order of floating-point additions would matter). For every graph the five functions (all_pairs with and without paths, multi_source on a generated subset, get_all_shortest_paths_involving, all_pairs / multi_source with target, cutoff and first_only, betweenness raw/normalized, closeness with/without WF) run inside rayon pools of every size 1..=16 entered with install (size 1 takes the serial path and is the reference), each size repeated 2 (quick) / 6 (thorough) times, half of the repetitions with perturbing load (busy tasks spawned into the same pool; the harness itself runs 16 cases at a time on shared pools, which shifts work stealing further); plus 6 scoped threads calling the functions on one &Graph at the same time. Oracle: differential — identical key sets, f64::to_bits equality of every distance and centrality, identical path lists including their order. Non-trivial = n > 20 and the serial result contains a non-integer value or a pair with >= 2 paths; distinct = distinct serialised case.".into()
     }
     fn assumptions(&self) -> Vec<String> {
         vec![
@@ -185,11 +187,11 @@ impl Prop for C07 {
         fn me(n: usize) -> usize {
             n * 2
         }
-        let normal = (graph_strategy(&ALL_KINDS, 21, 60, me, &[0, 3, 4, 4], 4), any::<u64>()).prop_map(|(g, sel)| ParCase { g, sel, big_n: None });
+        let normal = (graph_strategy(&ALL_KINDS, 21, 60, me, &[0, 3, 4, 4, 5, 7], 4), any::<u64>()).prop_map(|(g, sel)| ParCase { g, sel, big_n: None });
         // log-uniform sizes 61..=1200
         let big = (0u16..1000, any::<u64>(), 0u8..4).prop_map(|(r, sel, k)| {
-            let n = (61.0 * (1200.0f64 / 61.0).powf(r as f64 / 999.0)).round() as u16;
-            ParCase { g: GraphCase { kind: k & 1, n: 0, perm: 0, shape: 0, edges: vec![], wmode: if k & 2 == 2 { 4 } else { 0 } }, sel, big_n: Some(n) }
+            let n = (61.0 * (3000.0f64 / 61.0).powf(r as f64 / 999.0)).round() as u16;
+            ParCase { g: GraphCase { kind: k & 1, n: 0, perm: 0, shape: 0, edges: vec![], wmode: if k & 2 == 2 { 4 } else { 0 }, big_n: 0, big_seed: 0 }, sel, big_n: Some(n) }
         });
         prop_oneof![12 => normal, 1 => big].boxed()
     }
